@@ -407,6 +407,13 @@ def read_routines(repo):
     body = apply_cfg(strip_comments(macro_body(text, "copy_mat")))
     m = re.search(r'impl\s*<\s*T\s*>\s*CopyMat\s*<\s*T\s*>\s*for\s*Ref\s*<\s*\$(\w+)\s*<\s*T\s*>\s*>', body)
     if not m: raise Unrecognised("copy_mat!: no `impl<T> CopyMat<T> for Ref<$x<T>>`")
+    # the macro is the only implementation of the trait, and it is stamped out for the three dynamic storages
+    clean = strip_comments(text)
+    m0 = re.search(r'macro_rules!\s*copy_mat\s*\{', clean)
+    outside = clean[:m0.start()] + clean[balanced(clean, m0.end() - 1):]
+    if re.search(r'\bCopyMat\s*<[^>]*>\s*for\b', outside): raise Unrecognised("an implementation of CopyMat outside copy_mat!")
+    stamped = set(re.findall(r'\bcopy_mat!\s*\(\s*(\w+)\s*\)', apply_cfg(outside)))
+    if stamped != {"DMatrix", "DVector", "RowDVector"}: raise Unrecognised("copy_mat! is stamped out for %s with the default features" % sorted(stamped))
     out = []
     for name in ROUTINES:
         ms = list(re.finditer(r'fn\s+%s\s*\(\s*&\s*self\s*,\s*(\w+)\s*:\s*&\s*Ref\s*<\s*(\w+)\s*<\s*T\s*>\s*>\s*,\s*(\w+)\s*:\s*usize\s*\)\s*->\s*usize\s*\{' % name, body))
